@@ -9,7 +9,10 @@ document are compared with tr.steps / the raised error / tr.doc of the real oper
 (replace_step beyond a trivial fit, property C11) is an oracle of the model: its recorded answers are
 handed over in call order and all must be consumed.  In addition every emitted step is applied by the
 model to the recorded document before it, and the final document satisfies the documented per-token
-effect.
+effect.  The specification side of clear_incompatible (lean/PM/KeptChildren.lean: `retypedChildren` = the left-to-right
+filter `keptChildren` + fillers; theorems clearIncompatible_spec / setBlockType_spec) is tied through the
+`retypedChildren` request: every completed call of the real clear_incompatible (inside set_block_type and called
+directly on random nodes and types) is recorded, and the children it left must be exactly what the function says.
 Search: per-token oracle computed from to_json(): qualifying inline tokens inside the range carry
 the mark (documented add rule), matching marks are gone after removal, text/structure and marks
 outside the range are unchanged, node-level edits change only the addressed node, retyping keeps
